@@ -38,6 +38,7 @@ import (
 	"testing"
 	"time"
 
+	"github.com/basekick-labs/arc/internal/compaction"
 	"github.com/basekick-labs/arc/internal/config"
 	"github.com/basekick-labs/arc/internal/database"
 	"github.com/basekick-labs/arc/internal/storage"
@@ -55,6 +56,8 @@ type c11Env struct {
 	root string // storage root
 	arc  *database.DuckDB
 	ref  *sql.DB
+	cdb  *sql.DB // plain DuckDB handed to the real compaction job
+	back storage.Backend
 	app  *fiber.App
 	h    *RetentionHandler
 	n    int
@@ -85,18 +88,25 @@ func c11NewEnv(t testing.TB) *c11Env {
 	if _, err := ref.Exec("SET threads=1"); err != nil {
 		t.Fatalf("HARNESS duckdb threads: %v", err)
 	}
+	cdb, err := duck.Open()
+	if err != nil {
+		t.Fatalf("HARNESS duckdb: %v", err)
+	}
+	cdb.SetMaxOpenConns(4)
+	_, _ = cdb.Exec("SET threads=1")
 	h, err := NewRetentionHandler(backend, arc, &config.RetentionConfig{Enabled: true, DBPath: filepath.Join(tmp, "meta", "retention.db")}, nil, nil, logger)
 	if err != nil {
 		t.Fatalf("HARNESS NewRetentionHandler: %v", err)
 	}
 	app := fiber.New(fiber.Config{DisableStartupMessage: true})
 	h.RegisterRoutes(app)
-	e := &c11Env{tmp: tmp, root: root, arc: arc, ref: ref, app: app, h: h}
+	e := &c11Env{tmp: tmp, root: root, arc: arc, ref: ref, cdb: cdb, back: backend, app: app, h: h}
 	t.Cleanup(func() {
 		VerifSetClock(time.Time{})
 		_ = app.Shutdown()
 		h.Close()
 		ref.Close()
+		cdb.Close()
 		arc.Close()
 		os.RemoveAll(tmp)
 	})
@@ -657,9 +667,10 @@ func c11Property(t *rapid.T, e *c11Env) {
 	}
 }
 
-// compactOneDay merges the files of one (measurement, day) holding >= 2 files
-// into a single *_daily.parquet and removes the inputs - the post-condition of
-// a daily compaction job.
+// compactOneDay compacts the files of one (measurement, day) holding >= 2
+// files into a single *_daily.parquet: either with the real daily compaction
+// job (compaction.Job.Run on the same backend) or, when that declines the
+// inputs, by writing its post-condition directly (merged file, inputs removed).
 func (e *c11Env) compactOneDay(t *rapid.T, c *c11Case, state map[string][]c11Row) bool {
 	groups := map[string][]string{}
 	for rel := range state {
@@ -681,12 +692,41 @@ func (e *c11Env) compactOneDay(t *rapid.T, c *c11Case, state map[string][]c11Row
 	}
 	sort.Strings(keys)
 	g := rapid.SampledFrom(keys).Draw(t, "compactGroup")
-	var rows []c11Row
+	useJob := rapid.Bool().Draw(t, "realCompactionJob")
 	sort.Strings(groups[g])
+	out := fmt.Sprintf("%s/n%d_merged_daily.parquet", g, e.n)
+
+	if useJob {
+		parts := strings.Split(g, "/")
+		job := compaction.NewJob(&compaction.JobConfig{Measurement: parts[1], PartitionPath: g, Files: groups[g], StorageBackend: e.back,
+			Database: parts[0], Tier: "daily", TempDirectory: filepath.Join(e.tmp, "compaction"), DB: e.cdb,
+			Logger: zerolog.New(io.Discard).Level(zerolog.Disabled), JobID: fmt.Sprintf("c11job%d", e.n)})
+		err := job.Run(context.Background())
+		var fresh []string
+		for _, f := range duck.FindParquet(filepath.Join(e.root, g)) {
+			rel, _ := filepath.Rel(e.root, f)
+			if _, old := state[rel]; !old {
+				fresh = append(fresh, rel)
+			}
+		}
+		if err == nil && len(fresh) == 1 {
+			// the job names its output after the wall clock; give it a stable name
+			if rerr := os.Rename(filepath.Join(e.root, fresh[0]), filepath.Join(e.root, out)); rerr != nil {
+				t.Fatalf("HARNESS rename compacted output: %v", rerr)
+			}
+			c.Steps = append(c.Steps, "compaction-job "+g)
+			verifkit.Class("compaction-real-job")
+			return true
+		}
+		if err != nil || len(fresh) > 1 {
+			t.Fatalf("HARNESS compaction job: err=%v outputs=%v", err, fresh)
+		}
+		// the job declined (inputs already count as compacted): fall through
+	}
+	var rows []c11Row
 	for _, rel := range groups[g] {
 		rows = append(rows, state[rel]...)
 	}
-	out := fmt.Sprintf("%s/n%d_merged_daily.parquet", g, e.n)
 	if err := e.writeFile(out, rows); err != nil {
 		t.Fatalf("HARNESS compact write: %v", err)
 	}
@@ -696,6 +736,7 @@ func (e *c11Env) compactOneDay(t *rapid.T, c *c11Case, state map[string][]c11Row
 		_ = os.Remove(filepath.Dir(p)) // hour directory, when empty
 	}
 	c.Steps = append(c.Steps, "compact "+g)
+	verifkit.Class("compaction-modelled")
 	return true
 }
 
